@@ -209,9 +209,13 @@ def c20_spec(rng, idx):
                 "seed": rng.randint(0, 10 ** 6)}
     if r < 0.40:
         p = configs.c20_domain(configs.gen_params(rng, max_hosts=60))
-        return {"kind": "generated", "params": p}
+        spec = {"kind": "generated", "params": p}
+        if rng.random() < 0.2:
+            spec["then"] = configs.c20_domain(
+                configs.gen_params(rng, max_hosts=30))
+        return spec
     shape = rng.choice(["star", "star", "tree", "tree", "random", "chain",
-                        "clique"])
+                        "clique", "split"])
     doc = docgen.gen_doc(rng, shape=shape, max_subnets=rng.choice([4, 5, 6]),
                          max_hosts=3, n_public=rng.choice([1, 1, 2]),
                          open_firewall=rng.random() < 0.7, deny_rate=0.1,
